@@ -446,3 +446,208 @@ def set_alias_parents(tree: ast.AST) -> None:
     for n in ast.walk(tree):
         for ch in ast.iter_child_nodes(n):
             ch._alias_parent = n  # type: ignore[attr-defined]
+
+
+# ---------------------------------------------------------------------------------------------------
+# non-escaping local objects of private helper classes  ->  closure variables + nested functions
+# ---------------------------------------------------------------------------------------------------
+
+def _simple_helper_classes(tree: ast.Module) -> Dict[str, ast.ClassDef]:
+    """Private module-level classes that are nothing but state + methods: no bases other than Generic[...]/object,
+    no decorators, no class attributes (docstring, `__slots__` and bare annotations aside), no decorated or
+    dunder methods except a plain `__init__` that only assigns `self.x = <expr>` / `self.x: T = <expr>`."""
+    out: Dict[str, ast.ClassDef] = {}
+    subclassed: Set[str] = set()
+    for n in ast.walk(tree):
+        if isinstance(n, ast.ClassDef):
+            for b in n.bases:
+                for x in ast.walk(b):
+                    if isinstance(x, ast.Name):
+                        subclassed.add(x.id)
+    for st in tree.body:
+        if not isinstance(st, ast.ClassDef) or not st.name.startswith('_') or st.decorator_list or st.keywords:
+            continue
+        if any(not (ast.unparse(b).split('[')[0].split('.')[-1] in ('Generic', 'object')) for b in st.bases):
+            continue
+        if st.name in subclassed:
+            continue
+        ok = True
+        for b in st.body:
+            if isinstance(b, ast.Expr) and isinstance(b.value, ast.Constant):
+                continue
+            if isinstance(b, ast.Assign) and len(b.targets) == 1 and isinstance(b.targets[0], ast.Name) and b.targets[0].id == '__slots__':
+                continue
+            if isinstance(b, ast.AnnAssign) and b.value is None:
+                continue
+            if isinstance(b, ast.Pass):
+                continue
+            if isinstance(b, _FN) and not b.decorator_list:
+                if b.name.startswith('__') and b.name != '__init__':
+                    ok = False
+                a = b.args
+                if not a.args or a.args[0].arg != 'self' or a.vararg or a.kwarg or a.posonlyargs:
+                    ok = False
+                if any(isinstance(x, (ast.Global, ast.Nonlocal)) for x in ast.walk(b)):
+                    ok = False
+                # `self` only ever as `self.<name>`
+                for x in ast.walk(b):
+                    if isinstance(x, ast.Name) and x.id == 'self':
+                        par = getattr(x, '_alias_parent', None)
+                        if not (isinstance(par, ast.Attribute) and par.value is x):
+                            ok = False
+                continue
+            ok = False
+        init = next((b for b in st.body if isinstance(b, _FN) and b.name == '__init__'), None)
+        if init is not None:
+            if isinstance(init, ast.AsyncFunctionDef):
+                ok = False
+            for b in init.body:
+                if isinstance(b, ast.Expr) and isinstance(b.value, ast.Constant):
+                    continue
+                tg = None
+                if isinstance(b, ast.Assign) and len(b.targets) == 1:
+                    tg, val = b.targets[0], b.value
+                elif isinstance(b, ast.AnnAssign) and b.value is not None:
+                    tg, val = b.target, b.value
+                if not (isinstance(tg, ast.Attribute) and isinstance(tg.value, ast.Name) and tg.value.id == 'self'):
+                    ok = False
+                    continue
+                if any(isinstance(x, ast.Name) and x.id == 'self' for x in ast.walk(val)):
+                    ok = False
+        if ok:
+            out[st.name] = st
+    return out
+
+
+def deobjectify(tree: ast.Module) -> int:
+    """`b = _Helper(args)` where `b` never escapes (every use is `b.field` / `b.method(...)`): the object is
+    replaced by one local per field (`b__field`, initialised as `__init__` does) and one nested function per method
+    (`b__method`, with `self.x` -> `b__x`), i.e. the closure form of the same code.  Returns the number of objects
+    rewritten.  Rewritten functions carry `_deobjectified = True`; synthesized nested functions `_synthetic = True`."""
+    classes = _simple_helper_classes(tree)
+    if not classes:
+        return 0
+    count = 0
+    for fn in [n for n in ast.walk(tree) if isinstance(n, _FN)]:
+        if getattr(fn, '_synthetic', False):
+            continue
+        bound = _bound_names(fn)
+        # candidate assignments directly in the body of fn (not nested blocks: the object lives for the whole function)
+        for idx, st in enumerate(list(fn.body)):
+            tgt = val = None
+            if isinstance(st, ast.Assign) and len(st.targets) == 1 and isinstance(st.targets[0], ast.Name):
+                tgt, val = st.targets[0].id, st.value
+            elif isinstance(st, ast.AnnAssign) and isinstance(st.target, ast.Name) and st.value is not None:
+                tgt, val = st.target.id, st.value
+            if tgt is None or not (isinstance(val, ast.Call) and isinstance(val.func, ast.Name) and val.func.id in classes):
+                continue
+            cls = classes[val.func.id]
+            if bound.get(tgt, 0) != 1:
+                continue
+            if any(isinstance(a, ast.Starred) for a in val.args) or any(k.arg is None for k in val.keywords):
+                continue
+            # non-escaping: every other occurrence of the name (also in nested functions) is the value of an Attribute
+            uses = [x for x in ast.walk(fn) if isinstance(x, ast.Name) and x.id == tgt and x is not (st.targets[0] if isinstance(st, ast.Assign) else st.target)]
+            fields: List[str] = []
+            init = next((b for b in cls.body if isinstance(b, _FN) and b.name == '__init__'), None)
+            methods = {b.name: b for b in cls.body if isinstance(b, _FN) and b.name != '__init__'}
+            init_assigns: List[Tuple[str, ast.expr]] = []
+            if init is not None:
+                for b in init.body:
+                    if isinstance(b, ast.Assign):
+                        init_assigns.append((b.targets[0].attr, b.value))
+                    elif isinstance(b, ast.AnnAssign) and b.value is not None:
+                        init_assigns.append((b.target.attr, b.value))
+            fields = [f for f, _ in init_assigns]
+            ok = True
+            for u in uses:
+                par = getattr(u, '_alias_parent', None)
+                if not (isinstance(par, ast.Attribute) and par.value is u and (par.attr in fields or par.attr in methods)):
+                    ok = False
+                    break
+                if par.attr in methods and isinstance(par.ctx, (ast.Store, ast.Del)):
+                    ok = False
+                    break
+            # nested functions of fn must not rebind the name
+            for nf in ast.walk(fn):
+                if nf is not fn and isinstance(nf, _FN + (ast.Lambda,)):
+                    nb = _bound_names(nf) if not isinstance(nf, ast.Lambda) else {p.arg: 1 for p in nf.args.args}
+                    if tgt in nb:
+                        ok = False
+            # every self.<x> in the methods is a known field or method
+            for m in methods.values():
+                for x in ast.walk(m):
+                    if isinstance(x, ast.Attribute) and isinstance(x.value, ast.Name) and x.value.id == 'self' \
+                            and x.attr not in fields and x.attr not in methods:
+                        ok = False
+            if not ok or not uses:
+                continue
+            # constructor arguments
+            ipar = [a.arg for a in init.args.args][1:] if init is not None else []
+            if len(val.args) > len(ipar):
+                continue
+            ibind: Dict[str, ast.expr] = dict(zip(ipar, val.args))
+            bad = False
+            for k in val.keywords:
+                if k.arg not in ipar or k.arg in ibind:
+                    bad = True
+                ibind[k.arg] = k.value
+            if init is not None:
+                defaults = dict(zip(reversed([a.arg for a in init.args.args]), reversed(init.args.defaults)))
+                for prm in ipar:
+                    if prm not in ibind:
+                        if prm not in defaults:
+                            bad = True
+                        else:
+                            ibind[prm] = defaults[prm]
+            if bad:
+                continue
+            pre = f'{tgt}__'
+
+            class Ren(ast.NodeTransformer):
+                def __init__(self, recv: str, params: Optional[Dict[str, ast.expr]] = None):
+                    self.recv = recv
+                    self.params = params or {}
+
+                def visit_Attribute(self, n: ast.Attribute):
+                    self.generic_visit(n)
+                    if isinstance(n.value, ast.Name) and n.value.id == self.recv and (n.attr in fields or n.attr in methods):
+                        return ast.copy_location(ast.Name(id=pre + n.attr, ctx=n.ctx), n)
+                    return n
+
+                def visit_Name(self, n: ast.Name):
+                    if isinstance(n.ctx, ast.Load) and n.id in self.params:
+                        return _clone_expr(self.params[n.id])
+                    return n
+            new_stmts: List[ast.stmt] = []
+            for fname, fval in init_assigns:
+                v2 = Ren('self', ibind).visit(_clone_expr(fval))
+                a_ = ast.Assign(targets=[ast.Name(id=pre + fname, ctx=ast.Store())], value=v2)
+                ast.copy_location(a_, st)
+                for y in ast.walk(a_):
+                    if not hasattr(y, 'lineno'):
+                        ast.copy_location(y, st)
+                new_stmts.append(a_)
+            for mname, m in methods.items():
+                m2 = _clone_expr(m)
+                m2.name = pre + mname
+                m2.args.args = m2.args.args[1:]
+                m2 = Ren('self').visit(m2)
+                stored = sorted({x.id for x in ast.walk(m2) if isinstance(x, ast.Name) and isinstance(x.ctx, (ast.Store, ast.Del))
+                                 and x.id.startswith(pre) and x.id[len(pre):] in fields})
+                if stored:
+                    m2.body.insert(0, ast.copy_location(ast.Nonlocal(names=stored), m))
+                m2._synthetic = True  # type: ignore[attr-defined]
+                for y in ast.walk(m2):
+                    if isinstance(y, _FN):
+                        y._synthetic = True  # type: ignore[attr-defined]
+                ast.fix_missing_locations(m2)
+                new_stmts.append(m2)
+            fn.body[idx:idx + 1] = new_stmts
+            Ren(tgt).visit(fn)
+            fn._deobjectified = True  # type: ignore[attr-defined]
+            ast.fix_missing_locations(fn)
+            set_alias_parents(fn)
+            count += 1
+            break       # positions in fn.body changed: one object per function and pass
+    return count
